@@ -359,6 +359,90 @@ def add_wrappers(tree):
     return tree
 
 
+class Commute(ast.NodeTransformer):
+    """a * b -> b * a  (numbers and arrays: element-wise product; sequence repetition is symmetric too)"""
+    def visit_BinOp(self, n):
+        self.generic_visit(n)
+        if isinstance(n.op, ast.Mult) and not any(isinstance(z, (ast.Constant,)) and isinstance(z.value, str) for z in (n.left, n.right)):
+            n.left, n.right = n.right, n.left
+        return n
+
+
+class KwReorder(ast.NodeTransformer):
+    """f(a, x=1, y=2) -> f(a, y=2, x=1)"""
+    def visit_Call(self, n):
+        self.generic_visit(n)
+        if len(n.keywords) > 1 and all(k.arg for k in n.keywords):
+            n.keywords = list(reversed(n.keywords))
+        return n
+
+
+class LenShape(ast.NodeTransformer):
+    """x.shape[0] -> len(x)   (loads; arrays of at least one dimension)"""
+    def visit_Subscript(self, n):
+        self.generic_visit(n)
+        if isinstance(n.ctx, ast.Load) and isinstance(n.value, ast.Attribute) and n.value.attr == "shape" and isinstance(n.slice, ast.Constant) and n.slice.value == 0:
+            return ast.Call(func=ast.Name(id="len", ctx=ast.Load()), args=[n.value.value], keywords=[])
+        return n
+
+
+class NoneForm(ast.NodeTransformer):
+    """if x is None: x = d   ->   x = d if x is None else x"""
+    def visit_If(self, n):
+        self.generic_visit(n)
+        if not n.orelse and len(n.body) == 1 and isinstance(n.body[0], ast.Assign) and len(n.body[0].targets) == 1 and isinstance(n.body[0].targets[0], ast.Name) \
+                and isinstance(n.test, ast.Compare) and len(n.test.ops) == 1 and isinstance(n.test.ops[0], ast.Is) and isinstance(n.test.left, ast.Name) \
+                and n.test.left.id == n.body[0].targets[0].id and isinstance(n.test.comparators[0], ast.Constant) and n.test.comparators[0].value is None:
+            x = n.test.left.id
+            return ast.Assign(targets=[ast.Name(id=x, ctx=ast.Store())], value=ast.IfExp(test=n.test, body=n.body[0].value, orelse=ast.Name(id=x, ctx=ast.Load())))
+        return n
+
+
+class AttrLocal(ast.NodeTransformer):
+    """rp_ = self.run_params at the entry of a method, the body reading rp_.<field> (methods that never assign self.run_params)"""
+    def visit_FunctionDef(self, fn):
+        if not fn.args.args or fn.args.args[0].arg != "self" or any(isinstance(x, (ast.FunctionDef, ast.Lambda)) for x in ast.walk(fn) if x is not fn):
+            return fn
+        uses = [x for x in ast.walk(fn) if isinstance(x, ast.Attribute) and x.attr == "run_params" and isinstance(x.value, ast.Name) and x.value.id == "self"]
+        if len(uses) < 2 or any(isinstance(x.ctx, (ast.Store, ast.Del)) for x in uses):
+            return fn
+        # calls on self may replace the attribute: only methods that call nothing on self before the last use
+        if any(isinstance(c, ast.Call) and isinstance(c.func, ast.Attribute) and isinstance(c.func.value, ast.Name) and c.func.value.id == "self" for c in ast.walk(fn)):
+            return fn
+        if any(isinstance(c, ast.Call) and isinstance(c.func, ast.Name) and c.func.id in ("setattr", "super") for c in ast.walk(fn)):
+            return fn
+
+        class R(ast.NodeTransformer):
+            def visit_Attribute(self, x):
+                self.generic_visit(x)
+                if x.attr == "run_params" and isinstance(x.value, ast.Name) and x.value.id == "self" and isinstance(x.ctx, ast.Load):
+                    return ast.copy_location(ast.Name(id="rp_", ctx=ast.Load()), x)
+                return x
+        body = fn.body
+        doc = []
+        if body and isinstance(body[0], ast.Expr) and isinstance(body[0].value, ast.Constant) and isinstance(body[0].value.value, str):
+            doc, body = [body[0]], body[1:]
+        pre = ast.Assign(targets=[ast.Name(id="rp_", ctx=ast.Store())], value=ast.Attribute(value=ast.Name(id="self", ctx=ast.Load()), attr="run_params", ctx=ast.Load()))
+        fn.body = doc + [pre] + [R().visit(s_) for s_ in body]
+        return fn
+
+
+SUBMODS = {("scipy", "signal"), ("scipy", "linalg"), ("scipy", "optimize"), ("scipy", "interpolate"), ("scipy", "stats"), ("scipy", "fft"), ("numpy", "linalg"), ("numpy", "fft")}
+
+
+def import_style(tree):
+    """from scipy import signal -> import scipy.signal as signal"""
+    new = []
+    for s in tree.body:
+        if isinstance(s, ast.ImportFrom) and s.level == 0 and s.module and all((s.module, a.name) in SUBMODS for a in s.names):
+            for a in s.names:
+                new.append(ast.Import(names=[ast.alias(name=f"{s.module}.{a.name}", asname=a.asname or a.name)]))
+        else:
+            new.append(s)
+    tree.body = new
+    return tree
+
+
 for p in sorted(dst.rglob("*.py")):
     if "plot" in p.name or "pyvista" in p.name or "mpl" in p.name:
         continue
@@ -406,6 +490,18 @@ for p in sorted(dst.rglob("*.py")):
     elif kind == "wrapper":
         if p.parent.name == "functions":
             tree = add_wrappers(tree)
+    elif kind == "commute":
+        tree = Commute().visit(tree)
+    elif kind == "kwreorder":
+        tree = KwReorder().visit(tree)
+    elif kind == "lenshape":
+        tree = LenShape().visit(tree)
+    elif kind == "noneform":
+        tree = NoneForm().visit(tree)
+    elif kind == "attrlocal":
+        tree = AttrLocal().visit(tree)
+    elif kind == "importstyle":
+        tree = import_style(tree)
     elif kind == "kwargs":
         sigs = {f.name: [a.arg for a in f.args.posonlyargs + f.args.args] for f in tree.body if isinstance(f, ast.FunctionDef) and not f.args.vararg}
         tree = KwArgs(sigs).visit(tree)
